@@ -759,9 +759,8 @@ def run(ctx, out):
         r = rng.random()
         pool = DYADIC_W + ([1.0 + EPS, 2.0 + EPS, 3.0 - EPS] if r < 0.3 else [1.0 + D1, 1.0 + D2, 1.0 + D1, 1.0 + D2] if r < 0.4 else [])
         comps = random_circuit(rng, w_pool=pool)
-        if rng.random() < 0.05:
-            for c in comps:
-                if is_periodic(c): c['w'] = 0.0
+        # (a periodic source with fundamental w = 0 is rejected at construction since fix 149a545 — property C19
+        #  judges that; it is no valid input of C09 any more)
         if rng.random() < 0.1:
             comps.insert(0, dict(kind='Vcx', id='Vcx', nodes=['n0', 'x'], v=complex(1, 1)))
             comps.insert(0, dict(kind='R', id='Rx', nodes=['x', 'n0'], v=1.0))
